@@ -1,6 +1,8 @@
 """Generic runner: replay tier, enumerated cases, Hypothesis-driven random cases in parallel
 workers, shrinking, confirmation, replay + evidence files, known findings."""
 import os, sys, json, glob, time, hashlib, fnmatch, importlib, traceback, multiprocessing, random
+from concurrent.futures import ProcessPoolExecutor, as_completed
+from concurrent.futures.process import BrokenProcessPool
 from . import scenario, execu
 
 VERIF = os.path.dirname(os.path.dirname(os.path.abspath(__file__)))
@@ -123,23 +125,40 @@ def _enum_worker(args):
     return idx, r
 
 
+def _enum_chunk(items):
+    return [_enum_worker(it) for it in items]
+
+
+def _init_worker():
+    try:
+        import resource
+        resource.setrlimit(resource.RLIMIT_AS, (6 << 30, 6 << 30))
+    except Exception:
+        pass
+
+
 def derive_seed(seed, pid, w):
     return int.from_bytes(hashlib.blake2b(("%d/%s/%d" % (seed, pid, w)).encode(), digest_size=8).digest(), "big")
 
 
 def _hyp_worker(args):
-    pid, tier, seed, w, n = args
+    """Phase A (shrink=False): generate-only, stops at the first unknown failure.
+    Phase B (shrink=True): the same seed again with Hypothesis' shrinker, under a time budget."""
+    pid, tier, seed, w, n, shrink = args
     from hypothesis import given, settings, HealthCheck, Phase, Verbosity, seed as hseed
     prop = _PROP
     st = Stats()
-    state = {"first": None, "last": None}
+    state = {"first": None, "last": None, "t0": None}
+    budget = float(os.environ.get("MSV_SHRINK_BUDGET", "90" if tier == "quick" else "240"))
 
     @hseed(derive_seed(seed, pid, w))
     @settings(max_examples=n, database=None, deadline=None, suppress_health_check=list(HealthCheck),
-              phases=[Phase.generate, Phase.shrink], report_multiple_bugs=False, verbosity=Verbosity.quiet,
-              derandomize=False)
+              phases=[Phase.generate, Phase.shrink] if shrink else [Phase.generate], report_multiple_bugs=False,
+              verbosity=Verbosity.quiet, derandomize=False)
     @given(prop.strategy(tier))
     def t(case):
+        if state["t0"] is not None and time.time() - state["t0"] > budget:
+            return          # shrink budget used up: let Hypothesis wind down; the best failure so far is kept
         r = checked(prop, case)
         if state["first"] is None:
             st.add(r)
@@ -147,6 +166,7 @@ def _hyp_worker(args):
             sig = r.failure["signature"]
             if state["first"] is None:
                 state["first"] = sig
+                state["t0"] = time.time()
             if sig == state["first"]:
                 state["last"] = r.failure
                 raise AssertionError(sig)
@@ -172,7 +192,7 @@ def confirm(sc, times=3):
 
 
 def write_violation(pid, failure, observed=None):
-    d = os.path.join(VERIF, "violations", pid)
+    d = os.path.join(os.environ.get("MSV_VIOLATIONS_DIR", os.path.join(VERIF, "violations")), pid)
     os.makedirs(d, exist_ok=True)
     rep = {"property": pid, "signature": failure["signature"], "message": failure["message"],
            "case": failure.get("case"), "scenario": failure["scenario"]}
@@ -246,20 +266,40 @@ def run_check(pid, tier, seed):
         cases = prop.enumerated(tier, seed)
         if cases:
             enum_exhaustive = bool(getattr(prop, "EXHAUSTIVE", {}).get(tier, False)) if isinstance(getattr(prop, "EXHAUSTIVE", None), dict) else False
-            with ctx.Pool(WORKERS) as pool:
-                for idx, r in pool.imap_unordered(_enum_worker, list(enumerate(cases)), chunksize=max(1, min(16, len(cases) // (WORKERS * 8) or 1))):
-                    stats.add(r)
-                    if r.failure and not r.known and not r.inconclusive:
-                        candidates.append(((0, idx), r.failure))
+            chunk = max(1, min(16, len(cases) // (WORKERS * 8) or 1))
+            items = list(enumerate(cases))
+            try:
+                with ProcessPoolExecutor(WORKERS, mp_context=ctx, initializer=_init_worker) as ex:
+                    futs = [ex.submit(_enum_chunk, items[i:i + chunk]) for i in range(0, len(items), chunk)]
+                    for fu in as_completed(futs):
+                        for idx, r in fu.result():
+                            stats.add(r)
+                            if r.failure and not r.known and not r.inconclusive:
+                                candidates.append(((0, idx), r.failure))
+            except BrokenProcessPool:
+                stats.errors.append("a worker process died during the enumerated phase (killed / out of memory)")
     # 3. random cases under Hypothesis
     n_random = prop.n_random(tier) if hasattr(prop, "n_random") else 0
     if violation is None and not candidates and n_random > 0:
         per = max(1, n_random // WORKERS)
-        with ctx.Pool(WORKERS) as pool:
-            for w, st, last in pool.imap_unordered(_hyp_worker, [(pid, tier, seed, w, per) for w in range(WORKERS)]):
-                stats.merge(st)
-                if last is not None:
-                    candidates.append(((1, w), last))
+        try:
+            with ProcessPoolExecutor(WORKERS, mp_context=ctx, initializer=_init_worker) as ex:
+                futs = [ex.submit(_hyp_worker, (pid, tier, seed, w, per, False)) for w in range(WORKERS)]
+                failing = []
+                for fu in as_completed(futs):
+                    w, st, last = fu.result()
+                    stats.merge(st)
+                    if last is not None:
+                        failing.append((w, last))
+                if failing:
+                    failing.sort(key=lambda x: x[0])
+                    w0, unshrunk = failing[0]
+                    # shrink only the lowest-index failing worker's case (deterministic, bounded)
+                    _, _, shrunk = ex.submit(_hyp_worker, (pid, tier, seed, w0, per, True)).result()
+                    candidates.append(((1, w0, 0), shrunk if shrunk is not None else unshrunk))
+                    candidates.append(((1, w0, 1), unshrunk))
+        except BrokenProcessPool:
+            stats.errors.append("a worker process died during the random phase (killed / out of memory)")
     exit_code = 0
     nviol = 0
     if violation is None and candidates:
@@ -303,8 +343,9 @@ def run_check(pid, tier, seed):
         cov["exhaustive"] = True
     ev = {"property_id": pid, "tier": tier, "seed": seed, "level": prop.LEVEL, "coverage": cov,
           "assumptions": list(getattr(prop, "ASSUMPTIONS", [])), "wall_s": round(wall, 2), "violations": nviol}
-    os.makedirs(os.path.join(VERIF, "evidence"), exist_ok=True)
-    json.dump(ev, open(os.path.join(VERIF, "evidence", pid + ".json"), "w"), indent=1, ensure_ascii=False)
+    evdir = os.environ.get("MSV_EVIDENCE_DIR", os.path.join(VERIF, "evidence"))
+    os.makedirs(evdir, exist_ok=True)
+    json.dump(ev, open(os.path.join(evdir, pid + ".json"), "w"), indent=1, ensure_ascii=False)
     print("%s %s seed=%d: cases=%d evaluations=%d nontrivial=%d known_hits=%d rejected=%d wall=%.1fs exit=%d" % (
         pid, tier, seed, stats.cases, stats.evals, len(stats.nt), sum(stats.known.values()), stats.rejected, wall, exit_code))
     return exit_code
